@@ -43,16 +43,10 @@ def _env_with_delays(model, env):
     return e
 
 
-def observe(prog, opts, envs):
-    """everything the property names, for one option set; JSON-able"""
+def snapshot(model, envs):
+    """everything the property names, read from the model as it is NOW; JSON-able"""
     pm = ir_eval.pymoca()
     ca, np = pm["ca"], pm["np"]
-    try:
-        model = ir_eval.generate(prog, opts, simplify=True)
-    except MachineryError:
-        raise
-    except Exception as e:
-        return {"exc": exc_record(e)}
     obs = {"vars": ir_eval.variables(model), "outputs": list(model.outputs), "delay_states": list(model.delay_states),
            "types": {v.symbol.name(): v.python_type.__name__ for g in ir_eval.GROUPS for v in getattr(model, g)}}
     psyms = ca.veccat(*[p.symbol for p in model.parameters])
@@ -96,6 +90,38 @@ def observe(prog, opts, envs):
                         row.append("EXC " + type(e).__name__)
         vals["attrs"].append(row)
     obs["vals"] = vals
+    return obs
+
+
+def observe(prog, opts, envs):
+    """One usage history of a model under one option set, the same for every option set:
+       (1) compile (generate + simplify) and read everything;
+       (2) the user edits attributes of a variable (max, nominal) and reads everything again;
+       (3) the user runs one more simplification pass (replace_parameter_values, representation options not
+           repeated) and reads everything again.
+    The four functions are properties that are rebuilt on access; a representation option must not turn them into
+    something that remembers an earlier state of the model."""
+    try:
+        model = ir_eval.generate(prog, opts, simplify=True)
+    except MachineryError:
+        raise
+    except Exception as e:
+        return {"exc": exc_record(e)}
+    obs = snapshot(model, envs)
+    later = {}
+    cands = list(model.states) + list(model.alg_states)
+    if cands:
+        cands[0].max = 12.5
+        cands[0].nominal = 3.0
+    later["after-edit"] = snapshot(model, envs)
+    try:
+        model.simplify({"replace_parameter_values": True})
+        later["after-resimplify"] = snapshot(model, envs)
+    except MachineryError:
+        raise
+    except Exception as e:
+        later["after-resimplify"] = {"exc": exc_record(e)["exception_type"]}
+    obs["later"] = later
     return obs
 
 
@@ -163,17 +189,25 @@ def judge_group(args):
             continue
         if "exc" in ref:
             continue
-        for key, obsname in (("vars", "variables-differ"), ("types", "variables-differ"), ("outputs", "outputs-differ"),
-                             ("delay_states", "delay-states-differ")):
-            if o[key] != ref[key]:
-                recs.append(rec(obsname, "%s: %s vs %s" % (key, o[key], ref[key])))
-        if o.get("fn_exc") != ref.get("fn_exc") or o.get("unknown") != ref.get("unknown"):
-            recs.append(rec("function-construction-differs", "%s vs %s" % (o.get("fn_exc") or o.get("unknown"), ref.get("fn_exc") or ref.get("unknown"))))
-        for key, obsname in (("dae", "dae-residual-differs"), ("init", "initial-residual-differs"), ("meta", "metadata-function-differs"),
-                             ("delay", "delay-arguments-differ"), ("attrs", "variable-attributes-differ")):
-            if not same(o["vals"][key], ref["vals"][key]):
-                k = next((i for i, (x, y) in enumerate(zip(o["vals"][key], ref["vals"][key])) if not same(x, y)), 0)
-                recs.append(rec(obsname, "point %d: %s vs %s" % (k, str(o["vals"][key][k:k + 1])[:200], str(ref["vals"][key][k:k + 1])[:200])))
+        def compare(o_, r_, suffix):
+            if ("exc" in o_) or ("exc" in r_):
+                if o_.get("exc") != r_.get("exc"):
+                    recs.append(rec("raises-depends-on-options" + suffix, "%s vs %s" % (o_.get("exc", "ok"), r_.get("exc", "ok"))))
+                return
+            for key, obsname in (("vars", "variables-differ"), ("types", "variables-differ"), ("outputs", "outputs-differ"),
+                                 ("delay_states", "delay-states-differ")):
+                if o_[key] != r_[key]:
+                    recs.append(rec(obsname + suffix, "%s: %s vs %s" % (key, o_[key], r_[key])))
+            if o_.get("fn_exc") != r_.get("fn_exc") or o_.get("unknown") != r_.get("unknown"):
+                recs.append(rec("function-construction-differs" + suffix, "%s vs %s" % (o_.get("fn_exc") or o_.get("unknown"), r_.get("fn_exc") or r_.get("unknown"))))
+            for key, obsname in (("dae", "dae-residual-differs"), ("init", "initial-residual-differs"), ("meta", "metadata-function-differs"),
+                                 ("delay", "delay-arguments-differ"), ("attrs", "variable-attributes-differ")):
+                if not same(o_["vals"][key], r_["vals"][key]):
+                    k = next((i for i, (x, y) in enumerate(zip(o_["vals"][key], r_["vals"][key])) if not same(x, y)), 0)
+                    recs.append(rec(obsname + suffix, "point %d: %s vs %s" % (k, str(o_["vals"][key][k:k + 1])[:200], str(r_["vals"][key][k:k + 1])[:200])))
+        compare(o, ref, "")
+        for phase in ("after-edit", "after-resimplify"):
+            compare(o["later"][phase], ref["later"][phase], "-" + phase)
     return recs, info
 
 
